@@ -12,6 +12,8 @@ thread_local! {
     static TY_VISITS: Cell<u64> = const { Cell::new(0) };
     static FN_BUDGET: Cell<u64> = const { Cell::new(u64::MAX) };
     static TY_BUDGET: Cell<u64> = const { Cell::new(u64::MAX) };
+    static BLK_VISITS: Cell<u64> = const { Cell::new(0) };
+    static BLK_BUDGET: Cell<u64> = const { Cell::new(u64::MAX) };
 }
 
 fn hook(label: &'static str) {
@@ -34,8 +36,36 @@ fn hook(label: &'static str) {
                 panic!("VERIF step budget exceeded (walk:type)");
             }
         }
+        "walk:block" => {
+            let n = BLK_VISITS.with(|c| {
+                c.set(c.get() + 1);
+                c.get()
+            });
+            if n > BLK_BUDGET.with(|b| b.get()) {
+                panic!("VERIF step budget exceeded (walk:block)");
+            }
+        }
         _ => {}
     }
+}
+
+/// Number of statement blocks in the module's IR (function bodies, both arms of every `if`, switch case bodies,
+/// loop bodies and continuing blocks, nested blocks) - the size measure for the statement walk.
+pub fn count_blocks(module: &naga::Module) -> u64 {
+    fn block(b: &naga::Block) -> u64 {
+        let mut n = 1;
+        for s in b.iter() {
+            n += match s {
+                naga::Statement::Block(b) => block(b),
+                naga::Statement::If { accept, reject, .. } => block(accept) + block(reject),
+                naga::Statement::Switch { cases, .. } => cases.iter().map(|c| block(&c.body)).sum(),
+                naga::Statement::Loop { body, continuing, .. } => block(body) + block(continuing),
+                _ => 0,
+            };
+        }
+        n
+    }
+    module.functions.iter().map(|(_, f)| block(&f.body)).sum::<u64>() + module.entry_points.iter().map(|e| block(&e.function.body)).sum::<u64>()
 }
 
 pub struct Shape {
@@ -275,6 +305,11 @@ pub fn type_family(kind: &str, depth: usize, vars: usize) -> Shape {
 /// Size families: hundreds of bindings / members / structs / entry points / consts (linear-size inputs that
 /// must stay well under a second whatever the per-item work is).
 pub fn scale_family(kind: &str, n: usize) -> Shape {
+    if let Some(k) = kind.strip_prefix("stmt-") {
+        let mut s = stmt_family(k, n, &[Stage::F, Stage::C]);
+        s.key = format!("scale|{kind}|n={n}");
+        return s;
+    }
     let mut src = String::new();
     let (mut e, mut f, mut c, mut g, mut t, mut m) = (1u64, 1u64, 0u64, 0u64, 2u64, 0u64);
     match kind {
@@ -393,13 +428,20 @@ pub fn check(s: &Shape, rep: &mut Report) {
     let naga_result = naga_check(&s.src);
     // same-size reference measured in the same thread under the same load: naga's own parse + validation
     let naga_s = t_ref.elapsed().as_secs_f64();
-    if let Err(e) = naga_result {
-        rep.filtered(&format!("naga rejects: {}", e.replace('\n', " ").chars().take(70).collect::<String>()));
-        if std::env::var("VERIF_DEBUG").is_ok() {
-            eprintln!("FILTERED {}: {e}\n{}", s.key, s.src);
+    let blocks = match &naga_result {
+        Ok((m, _)) => count_blocks(m),
+        Err(e) => {
+            rep.filtered(&format!("naga rejects: {}", e.replace('\n', " ").chars().take(70).collect::<String>()));
+            if std::env::var("VERIF_DEBUG").is_ok() {
+                eprintln!("FILTERED {}: {e}\n{}", s.key, s.src);
+            }
+            return;
         }
-        return;
-    }
+    };
+    // every function is walked at most once per entry point, so its blocks are
+    let blk_bound = 8 * s.e.max(1) * (blocks + 1);
+    BLK_VISITS.with(|c| c.set(0));
+    BLK_BUDGET.with(|b| b.set(blk_bound));
     FN_VISITS.with(|c| c.set(0));
     TY_VISITS.with(|c| c.set(0));
     FN_BUDGET.with(|b| b.set(s.fn_bound()));
@@ -410,15 +452,21 @@ pub fn check(s: &Shape, rep: &mut Report) {
     let wall = t0.elapsed().as_secs_f64();
     FN_BUDGET.with(|b| b.set(u64::MAX));
     TY_BUDGET.with(|b| b.set(u64::MAX));
+    BLK_BUDGET.with(|b| b.set(u64::MAX));
+    let bv = BLK_VISITS.with(|c| c.get());
     let fv = FN_VISITS.with(|c| c.get());
     let tv = TY_VISITS.with(|c| c.get());
     rep.nontrivial.insert(hash64(&s.src));
-    let detail = json!({"wgsl": s.src, "config": Config::default().key(), "function_visits": fv, "function_bound": s.fn_bound(), "type_visits": tv, "type_bound": s.ty_bound(), "wall_s": wall,
+    let detail = json!({"wgsl": s.src, "config": Config::default().key(), "function_visits": fv, "function_bound": s.fn_bound(), "type_visits": tv, "type_bound": s.ty_bound(), "block_visits": bv, "block_bound": blk_bound, "blocks": blocks, "wall_s": wall,
         "sizes": {"entries": s.e, "functions": s.f, "call_sites": s.c, "globals": s.g, "types": s.t, "type_edges": s.m}});
     match &out {
         Outcome::Panic(m) if m.contains("VERIF step budget exceeded (walk:function)") => {
             rep.violation(s.key.clone(), format!("call-graph walk exceeded {} steps (8*E*(F+C+1)) for E={} F={} C={}", s.fn_bound(), s.e, s.f, s.c), detail);
             rep.outcomes.insert("fn-budget".into());
+        }
+        Outcome::Panic(m) if m.contains("VERIF step budget exceeded (walk:block)") => {
+            rep.violation(s.key.clone(), format!("statement walk exceeded {blk_bound} block visits (8*E*(B+1)) for E={} B={blocks}", s.e), detail);
+            rep.outcomes.insert("blk-budget".into());
         }
         Outcome::Panic(m) if m.contains("VERIF step budget exceeded (walk:type)") => {
             rep.violation(s.key.clone(), format!("type closure exceeded {} steps (8*G*(T+M+1)) for G={} T={} M={}", s.ty_bound(), s.g, s.t, s.m), detail);
@@ -441,6 +489,100 @@ pub fn check(s: &Shape, rep: &mut Report) {
             rep.filtered(&format!("generator not Ok: {}", other.class()));
         }
     }
+}
+
+pub const STMT_KINDS: [&str; 9] = ["else-if-chain", "nested-if", "nested-else", "nested-loop", "nested-for", "switch-cases", "nested-switch", "nested-block", "mixed-nest"];
+
+/// One helper `work()` whose body has the given statement shape of size n, each innermost / each branch calling a
+/// shared leaf helper that reads a uniform; called from one entry point per stage.
+pub fn stmt_family(kind: &str, n: usize, stages: &[Stage]) -> Shape {
+    let mut body = String::new();
+    let call = "acc = acc + leaf_fn();";
+    match kind {
+        "else-if-chain" => {
+            body.push_str(&format!("if sel == 0u {{ {call} }}"));
+            for i in 1..n {
+                body.push_str(&format!(" else if sel == {i}u {{ {call} }}"));
+            }
+            body.push_str(&format!(" else {{ {call} }}\n"));
+        }
+        "nested-if" => {
+            for i in 0..n {
+                body.push_str(&format!("if sel > {i}u {{ {call} "));
+            }
+            body.push_str(&"}".repeat(n));
+            body.push('\n');
+        }
+        "nested-else" => {
+            for i in 0..n {
+                body.push_str(&format!("if sel == {i}u {{ {call} }} else {{ "));
+            }
+            body.push_str(call);
+            body.push_str(&" }".repeat(n));
+            body.push('\n');
+        }
+        "nested-loop" => {
+            for _ in 0..n {
+                body.push_str(&format!("loop {{ {call} if acc > 1.0 {{ break; }} "));
+            }
+            body.push_str(&"continuing { acc = acc + 1.0; } }".repeat(n));
+            body.push('\n');
+        }
+        "nested-for" => {
+            for i in 0..n {
+                body.push_str(&format!("for (var k{i} = 0u; k{i} < sel; k{i}++) {{ {call} "));
+            }
+            body.push_str(&"}".repeat(n));
+            body.push('\n');
+        }
+        "switch-cases" => {
+            body.push_str("switch sel {\n");
+            for i in 0..n {
+                body.push_str(&format!("  case {i}u: {{ {call} }}\n"));
+            }
+            body.push_str(&format!("  default: {{ {call} }}\n}}\n"));
+        }
+        "nested-switch" => {
+            // two braces per level: half the depth keeps it under naga's brace nesting limit
+            let n = n.div_ceil(2);
+            for i in 0..n {
+                body.push_str(&format!("switch sel {{ case {i}u: {{ {call} }} default: {{ "));
+            }
+            body.push_str(call);
+            body.push_str(&" } }".repeat(n));
+            body.push('\n');
+        }
+        "nested-block" => {
+            for _ in 0..n {
+                body.push_str(&format!("{{ {call} "));
+            }
+            body.push_str(&"}".repeat(n));
+            body.push('\n');
+        }
+        _ => {
+            // if > loop > switch > block, repeated
+            let per = 4;
+            let reps = n.div_ceil(per);
+            for i in 0..reps {
+                body.push_str(&format!("if sel > {i}u {{ loop {{ if acc > 9.0 {{ break; }} switch sel {{ case {i}u: {{ {{ {call} "));
+            }
+            for _ in 0..reps {
+                body.push_str("} } default: { } } continuing { acc = acc + 1.0; } } } else { acc = acc + leaf_fn(); } ");
+            }
+            body.push('\n');
+        }
+    }
+    let mut src = String::from("@group(0) @binding(0) var<uniform> leaf: vec4<f32>;\nfn leaf_fn() -> f32 { return leaf.x; }\n");
+    src.push_str(&format!("fn work(sel: u32) -> f32 {{\n    var acc = 0.0;\n    {body}    return acc;\n}}\n"));
+    for st in stages {
+        match st {
+            Stage::V => src.push_str("@vertex fn vs_main(@builtin(vertex_index) i: u32) -> @builtin(position) vec4<f32> { return vec4<f32>(work(i)); }\n"),
+            Stage::F => src.push_str("@fragment fn fs_main(@builtin(sample_index) i: u32) -> @location(0) vec4<f32> { return vec4<f32>(work(i)); }\n"),
+            Stage::C => src.push_str("@compute @workgroup_size(1) fn cs_main(@builtin(local_invocation_index) i: u32) { _ = work(i); }\n"),
+        }
+    }
+    let e = stages.len() as u64;
+    Shape { key: format!("stmt|{kind}|n={n}|entries={e}"), src, e, f: e + 2, c: e + 2 * n as u64 + 2, g: 1, t: 1, m: 0, helpers_reachable: true }
 }
 
 pub fn space(thorough: bool) -> Vec<Shape> {
@@ -469,6 +611,16 @@ pub fn space(thorough: bool) -> Vec<Shape> {
                         out.push(s);
                     }
                 }
+            }
+        }
+    }
+    // statement shapes inside one function: the walk over blocks must be linear in the number of blocks however
+    // they nest (else-if chains lower to an `if` nested in the reject block, `for` to loop+if+break, ...)
+    let stmt_sizes: &[usize] = if thorough { &[4, 16, 32, 48, 60] } else { &[4, 24, 48] };
+    for kind in STMT_KINDS {
+        for &n in stmt_sizes {
+            for stages in [&[Stage::C][..], &[Stage::V, Stage::F, Stage::C][..]] {
+                out.push(stmt_family(kind, n, stages));
             }
         }
     }
@@ -510,6 +662,13 @@ pub fn scale_cases() -> Vec<(&'static str, usize)> {
         ("fragment-output-members-desc", vec![8, 32, 64]),
         ("vertex-input-members", vec![8, 32, 64]),
         ("groups-bindings-mixed", vec![64, 400]),
+        ("stmt-else-if-chain", vec![24, 48]),
+        ("stmt-nested-else", vec![24, 48]),
+        ("stmt-nested-if", vec![48]),
+        ("stmt-nested-loop", vec![24, 48]),
+        ("stmt-nested-switch", vec![48]),
+        ("stmt-switch-cases", vec![200]),
+        ("stmt-mixed-nest", vec![24, 48]),
     ] {
         for n in sizes {
             v.push((kind, n));
@@ -702,7 +861,7 @@ pub fn run(tier: &str) -> i32 {
     rep.set("scale_families", json!(scale_report));
     rep.set("wall_clock_children", json!(wall));
     rep.traces_validated = rep.evaluations;
-    rep.rule = format!("(1) every tile: DAG on <= {} helpers with each forward edge in {{absent, 1 statement call, 1 value call, 2 statement calls, 2 value calls, 1+1 mixed}}, composed {}x in series; (2) chain / diamond / 3-fold fan-in / fan-out families at depths {:?} with every call form at every placement context, plus 4-entry and 290-function members; (3) nested two-/three-member struct types to depth 24/40, wide structs, many variables sharing one type; (4) size families: up to 1000 bindings / 1000 members / 300 structs / 64 vertex entries x 12 structs / 200 entry points sharing helpers / 300 consts+overrides / arrays nested 16 deep, each under 2 s. Oracle: walk:function visits <= 8*E*(F+C+1), walk:type visits <= 8*G*(T+M+1) (hook aborts at the budget); wall clock of amplified members in child processes <= max(2 s, 200 x same-size flat shader).", 4, if thorough { 16 } else { 8 }, if thorough { vec![8, 16, 32, 64] } else { vec![16, 64] });
+    rep.rule = format!("(1) every tile: DAG on <= {} helpers with each forward edge in {{absent, 1 statement call, 1 value call, 2 statement calls, 2 value calls, 1+1 mixed}}, composed {}x in series; (2) chain / diamond / 3-fold fan-in / fan-out families at depths {:?} with every call form at every placement context, plus 4-entry and 290-function members; (3) nested two-/three-member struct types to depth 24/40, wide structs, many variables sharing one type; (3b) statement shapes in one function (else-if chains, nested if / else / loop / for / switch / blocks, mixed) at sizes up to 60 under 1 and 3 entry points, block visits <= 8*E*(B+1) from the walk:block hook; (4) size families: up to 1000 bindings / 1000 members / 300 structs / 64 vertex entries x 12 structs / 200 entry points sharing helpers / 300 consts+overrides / arrays nested 16 deep, each under 2 s. Oracle: walk:function visits <= 8*E*(F+C+1), walk:type visits <= 8*G*(T+M+1) (hook aborts at the budget); wall clock of amplified members in child processes <= max(2 s, 200 x same-size flat shader).", 4, if thorough { 16 } else { 8 }, if thorough { vec![8, 16, 32, 64] } else { vec![16, 64] });
     rep.assumptions.push("step counts come from the verif-hooks points at the top of the two recursive walks; if a refactor removes them the wall-clock part decides alone".into());
     rep.finish()
 }
